@@ -10,6 +10,8 @@ PATCH=$OUT/patch.diff
 git checkout -- src 2>/dev/null
 git apply $PATCH || { echo "patch does not apply"; exit 8; }
 DEMOS="$@"
+# demos delivered only in the out dir: copy them into tests/
+for f in $OUT/demo/*.rs; do b=$(basename $f); [ -f tests/$b ] || cp $f tests/$b; done
 if [ -z "$DEMOS" ]; then DEMOS=$(git status --porcelain tests/ | grep '^??' | sed 's/^?? tests\///; s/\.rs$//'); fi
 echo "demos: $DEMOS" > $OUT/confirm.log
 with=0; without=0
@@ -19,12 +21,20 @@ for d in $DEMOS; do
 done
 timeout 1500 cargo test --lib --offline -- --test-threads 8 > $OUT/confirm_lib.log 2>&1
 grep -E "^test .* (FAILED|failed)" $OUT/confirm_lib.log | sed 's/^test //; s/ \.\.\. .*//' | sort > $OUT/confirm_failed.txt
+# re-run individually (single thread) any stable test that failed in the loaded parallel run
+for t in $(cat $OUT/confirm_failed.txt); do
+  if python3 -c "import json,sys; s=set(x.replace('nun-db::','') for x in json.load(open('/root/.vp/BASELINE.json'))['stable_pass']); sys.exit(0 if '$t' in s else 1)"; then
+    timeout 600 cargo test --lib --offline $t -- --test-threads 1 2>&1 | grep -E "^test $t" >> $OUT/confirm_retest.txt
+  fi
+done
 python3 - $OUT <<'PY' >> $OUT/confirm.log
 import json,sys
 out=sys.argv[1]
 stable=set(t.replace('nun-db::','') for t in json.load(open('/root/.vp/BASELINE.json'))['stable_pass'])
 failed=[l.strip() for l in open(out+'/confirm_failed.txt') if l.strip()]
-bad=[f for f in failed if f in stable]
+import os
+retest=open(out+'/confirm_retest.txt').read() if os.path.exists(out+'/confirm_retest.txt') else ''
+bad=[f for f in failed if f in stable and ('test %s ... ok' % f) not in retest]
 print("LIB failed:",failed); print("STABLE BROKEN:",bad)
 PY
 git apply -R $PATCH
